@@ -276,6 +276,7 @@ class SnapSched(Scheduler):
 
 
 class C09Spec(c01.C01Spec):
+    churn_share = 0
     prop = PROP
     invariants = INVARIANTS
 
@@ -343,7 +344,86 @@ class C09Spec(c01.C01Spec):
 
 
 SPEC = C09Spec()
-run = make_run(SPEC)
+
+
+# -- the member set is part of what a snapshot restores ----------------------------------------------
+# One run in five uses C10's membership machinery (spare hosts, joiners, add/remove through the public API, the
+# reference fold of membership commands over the common sequence) on a benign network with aggressive compaction:
+# joiners and restarted nodes catch up from snapshots, many of them taken right at a membership entry.
+from . import c10 as _c10
+
+INV_PROP['snapshot_member_set_mismatch'] = PROP
+INVARIANTS = INVARIANTS + ('snapshot_member_set_mismatch',)
+SPEC.invariants = INVARIANTS
+
+
+class SnapMemberOracle(_c10.MemberOracle):
+    def __init__(self, world, app):
+        _c10.MemberOracle.__init__(self, world, app)
+        self.loaded = {}           # host -> (incarnation, position of the last snapshot it loaded)
+
+    def after_event(self, ev, out, touched):
+        w = self.w
+        for l in w.step_loads:
+            self.loaded[l[0]] = (w.hosts[l[0]].inc, l[3])
+            w.probe('member_run_snapshot_load')
+        before = len(self.violations)
+        _c10.MemberOracle.after_event(self, ev, out, touched)
+        if touched is None:
+            return
+        for v in self.violations[before:]:
+            if v.inv != 'member_set_mismatch' or (v.detail or {}).get('reapplied_at_commit'):
+                continue
+            h = w.hosts[touched]
+            ld = self.loaded.get(touched)
+            n = h.node
+            # attributable to the snapshot: this process loaded one and has not appended a membership entry since
+            if ld is not None and n is not None and ld[0] == h.inc:
+                ents = log_of_(n)
+                later = [e for e in ents if e[1] > ld[1] and self.app.decode(_c10.norm(e)[0])[0] == 'member']
+                if not later:
+                    self.flag('snapshot_member_set_mismatch', 'after loading the snapshot of position %d: %s' % (ld[1], v.msg), v.detail)
+
+
+def log_of_(n):
+    return _c10.log_of(n)[:]
+
+
+class C09MemberSpec(_c10.C10Spec):
+    prop = PROP
+    invariants = INVARIANTS
+
+    def draw(self, rng, tier='quick'):
+        cfg = _c10.C10Spec.draw(self, rng, tier)
+        cfg['c09_member'] = True
+        conf = cfg['conf']
+        conf['logCompactionMinEntries'] = rng.choice([2, 2, 3, 5])
+        conf['logCompactionMinTime'] = rng.choice([0.2, 0.5, 1 << 30])
+        conf['logCompactionBatchSize'] = rng.choice([64, 200, 1024, 1 << 16])
+        s = cfg['sched']
+        s['w_part'] = 0.0
+        s['w_rst'] = 0.0
+        s['w_hold'] = 0.0
+        s['w_stall'] = 0.0
+        s['w_compact'] = rng.choice([0.05, 0.1, 0.3])
+        s['w_sub'] = rng.choice([0.05, 0.2])
+        s['w_member'] = rng.choice([0.05, 0.15])
+        s['steps'] = rng.choice([2000, 3500])
+        return cfg
+
+    def make_oracle(self, world, app):
+        return SnapMemberOracle(world, app)
+
+    def nontrivial(self, res):
+        return res['probes'].get('member_run_snapshot_load', 0) > 0 and res['summary'].get('member_commits', 0) >= 1
+
+
+MSPEC = C09MemberSpec()
+
+
+def run(seed, tier, cfg=None, events=None):
+    member = cfg.get('c09_member') if cfg is not None else (seed % 5 == 4)
+    return run_cluster(seed, MSPEC if member else SPEC, cfg=cfg, events=events, tier=tier)
 
 
 def match_known(k, viol, events, cfg):
